@@ -3,15 +3,15 @@
 (* Model checking of the erasure-coding part of Shred.tla (C11) and the    *)
 (* enumeration of cases that are replayed into the real shredders.         *)
 (*                                                                         *)
-(* There are no transitions: every "state" is one case (INIT enumerates    *)
-(* the case space, NEXT is FALSE) and the invariants are the property      *)
-(* evaluated on that case.  Three families, selected by the INIT of the    *)
-(* cfg:                                                                    *)
-(*   InitArith : every coded length L, accepted or not  (integer layer)    *)
-(*   InitBytes : symbolic payloads (length x last three bytes)             *)
-(*   InitCases : shred + deshred cases (variant x slice x held shape x     *)
-(*               failure injection); each is printed as a CASE line with   *)
-(*               the outcome the specification demands.                    *)
+(* A "state" is one case and the invariants are the property evaluated on  *)
+(* that case.  Three families, selected by INIT/NEXT of the cfg:           *)
+(*   InitArith/Next : every coded length L, accepted or not (integers)     *)
+(*   InitBytes/NextBytes : symbolic payloads (length x last three bytes)        *)
+(*   InitCases/NextCases : shred + deshred cases (variant x slice x held   *)
+(*               shape x failure injection); the initial states cut the    *)
+(*               case space into seeds, the cases are their successors;    *)
+(*               each is printed as a CASE line with the outcome the       *)
+(*               specification demands.                                    *)
 (***************************************************************************)
 EXTENDS Shred, Json, TLCExt
 
@@ -48,15 +48,15 @@ W_ArithRefused == ~(cs.fam = "arith" /\ ECRefused(cs.L))
 ---------------------------------------------------------------------------
 (* bytes *)
 Tails == {<<>>} \cup [1..1 -> ECBytes] \cup [1..2 -> ECBytes] \cup [1..3 -> ECBytes]
-InitBytes == \E L \in ByteLens, t \in Tails :
-               /\ Len(t) <= L
-               /\ cs = [fam |-> "bytes", L |-> L, tail |-> t]
-BytesPayload(L, t) == [i \in 1..L |-> IF i > L - Len(t) THEN t[i - (L - Len(t))] ELSE ECOther]
+InitBytes == \E L \in ByteLens : cs = [fam |-> "bseed", L |-> L]
+NextBytes == /\ cs.fam = "bseed"
+             /\ \E t \in Tails : Len(t) <= cs.L /\ cs' = [fam |-> "bytes", L |-> cs.L, tail |-> t]
+BytesPayload(L, t) == TLCEval([i \in 1..L |-> IF i > L - Len(t) THEN t[i - (L - Len(t))] ELSE ECOther])
 BytesInv == cs.fam = "bytes" => ECBytesOK(BytesPayload(cs.L, cs.tail))
 \* un-padding refuses a buffer without marker and the empty buffer (deshred's error paths)
 BytesRejects ==
   cs.fam = "bytes" =>
-    /\ ~ECUnpad(ECRepeat(ECZero, cs.L)).ok
+    /\ ~ECUnpad(ECRepeat(ECZero, Min2(cs.L, 300))).ok
     /\ ~ECUnpad(BytesPayload(cs.L, cs.tail) \o <<ECOther>> \o ECRepeat(ECZero, 3)).ok
 
 ---------------------------------------------------------------------------
@@ -165,9 +165,12 @@ NextXVariant ==
 \* <<held, of which foreign>>
 MixShapes == {<<ECData, 1>>, <<ECData, ECData \div 2>>, <<ECData, ECData - 1>>, <<ECData + 8, ECData \div 2 + 4>>,
               <<ECTotal - 2, ECData - 1>>, <<ECData - 1, 1>>, <<5, 2>>}
+\* Two codewords are taken to differ in every shard; with random content that needs a few content
+\* bytes in every data shard (MixWellFormed), hence data lengths of a few thousand bytes here.
+MixN == {2990, 20000}
 NextMix ==
   /\ cs.of = "inject" /\ cs.pv \in {"mixsize", "mixroot"}
-  /\ \E n \in ShapeN, m \in MixShapes :
+  /\ \E n \in MixN, m \in MixShapes :
        LET v == cs.v  kind == cs.pv  h == m[1]  f == m[2]
            d == Min2(ECNumData(v), h \div 2)
            sl == MkSlice(n, TRUE, n + h)
@@ -189,24 +192,24 @@ HeldRep(pick, r) ==
                   ELSE (pick[j].hi - pick[j].k + 1)..pick[j].hi : j \in 1..Len(pick)}
 Lowest(H, f)  == {i \in H : Cardinality({j \in H : j < i}) < f}
 Highest(H, f) == {i \in H : Cardinality({j \in H : j > i}) < f}
-CW(c) == [w \in {"A", "B"} |-> IF w = "A" THEN ECSource(c.pv, c.slice) ELSE ECSource(c.pv, c.slice2)]
+CW(c) == TLCEval([w \in {"A", "B"} |-> IF w = "A" THEN ECSource(c.pv, c.slice) ELSE ECSource(c.pv, c.slice2)])
 ArrRep(c, r) ==
   LET H == HeldRep(c.pick, r)
       F == IF r = 0 THEN Lowest(H, c.foreign) ELSE Highest(H, c.foreign)
-  IN [i \in ECPositions |-> IF i \notin H THEN ECNoShred
-                            ELSE IF i \in F THEN ECShredOf("B", i) ELSE ECShredOf("A", i)]
+  IN TLCEval([i \in ECPositions |-> IF i \notin H THEN ECNoShred
+                                    ELSE IF i \in F THEN ECShredOf("B", i) ELSE ECShredOf("A", i)])
 HeldCount(c) == c.pick[1].k + c.pick[2].k + (IF Len(c.pick) > 2 THEN c.pick[3].k ELSE 0)
 
 \* what the harness compares, derived from a result (and the result of decoding again)
 Summary(c, arr, res, res2) ==
   LET miss == ECPositions \ ECHeld(arr) IN
-  [ok |-> res.ok, err |-> res.err, slice |-> res.slice,
-   after |-> IF res.ok THEN "full" ELSE "unchanged",
-   regen_data |-> IF res.ok THEN Cardinality({i \in miss : i < ECNumData(c.v)}) ELSE 0,
-   regen_coding |-> IF res.ok THEN Cardinality({i \in miss : i >= ECNumData(c.v)}) ELSE 0,
-   again |-> IF res.ok /\ c.inj = "none"
-             THEN [run |-> TRUE, ok |-> res2.ok, slice |-> res2.slice]
-             ELSE [run |-> FALSE, ok |-> FALSE, slice |-> ECNoSlice]]
+  IF ~res.ok THEN [ok |-> FALSE, err |-> res.err, after |-> "unchanged"]
+  ELSE [ok |-> TRUE, err |-> "-", slice |-> res.slice, after |-> "full",
+        regen_data |-> Cardinality({i \in miss : i < ECNumData(c.v)}),
+        regen_coding |-> Cardinality({i \in miss : i >= ECNumData(c.v)}),
+        again |-> IF c.inj # "none" THEN [run |-> FALSE]
+                  ELSE IF res2.ok THEN [run |-> TRUE, ok |-> TRUE, slice |-> res2.slice]
+                  ELSE [run |-> TRUE, ok |-> FALSE]]
 SummaryRep(c, r) ==
   LET cw == CW(c)
       arr == ArrRep(c, r)
@@ -214,13 +217,16 @@ SummaryRep(c, r) ==
       res2 == IF res.ok THEN ECDeshred(c.v, cw, ECForget(arr, res)) ELSE res
   IN Summary(c, arr, res, res2)
 
-Shredded(c) == /\ ECShred(c.pv, c.slice).ok
-               /\ (c.inj \in {"mixsize", "mixroot"} => ECShred(c.pv, c.slice2).ok)
+IsMix(c) == c.inj \in {"mixsize", "mixroot"}
+Shredded(c) == ECShred(c.pv, c.slice).ok /\ (IsMix(c) => ECShred(c.pv, c.slice2).ok)
 Expect(c) ==
-  [shred |-> ECShred(c.pv, c.slice), shred2 |-> ECShred(c.pv, c.slice2), held |-> HeldCount(c),
+  [shred |-> ECShred(c.pv, c.slice), held |-> HeldCount(c), ndata |-> ECNumData(c.pv),
    deshred |-> IF Shredded(c) THEN [run |-> TRUE] @@ SummaryRep(c, 0) ELSE [run |-> FALSE]]
+   @@ (IF IsMix(c) THEN [shred2 |-> ECShred(c.pv, c.slice2)] ELSE [nomix |-> TRUE])
+CaseIn(c) == IF IsMix(c) THEN c
+             ELSE [fam |-> c.fam, v |-> c.v, pv |-> c.pv, slice |-> c.slice, pick |-> c.pick, inj |-> c.inj, foreign |-> 0]
 
-EmitCase == IsCase => PrintT(<<"CASE", ToJson([in |-> cs, exp |-> Expect(cs)])>>)
+EmitCase == IsCase => PrintT(<<"CASE", ToJson([in |-> CaseIn(cs), exp |-> Expect(cs)])>>)
 
 ---------------------------------------------------------------------------
 (* invariants over the cases *)
@@ -230,12 +236,17 @@ CaseWellFormed ==
             /\ HeldCount(cs) = Cardinality(HeldRep(cs.pick, 0))
             /\ cs.slice.n >= 0
 
+MixWellFormed ==
+  (IsCase /\ cs.inj \in {"mixsize", "mixroot"}) =>
+     \A w \in {"A", "B"} : LET L == CW(cs)[w].len IN
+        ~ECRefused(L) /\ ECShardSize(L) - ECPadLen(L) >= 8      \* content bytes in the last data shard
+
 C11_Limit == IsCase => EC_LimitExact(cs.pv, cs.slice)
 C11_ShardArith == (IsCase /\ Shredded(cs)) =>
                      /\ ECArithOK(CW(cs)["A"].len)
                      /\ ECShred(cs.pv, cs.slice).shard = ECShardSize(CW(cs)["A"].len)
-C11_ShapeDetermines == (IsCase /\ Shredded(cs)) => SummaryRep(cs, 0) = SummaryRep(cs, 1)
-\* the C11 predicates of Shred.tla on ECDeshred, for both representatives
+\* the C11 predicates of Shred.tla on ECDeshred, for both representatives; and the verdict the
+\* harness is given (computed on representative 0) is the verdict of the other one too
 C11_Receiver ==
   (IsCase /\ Shredded(cs)) =>
     \A r \in {0, 1} :
@@ -252,6 +263,7 @@ C11_Receiver ==
          /\ EC_ShortIsNotBlamed(v, cw, "A", arr, res)
          /\ EC_Again(arr, res, res2)
          /\ (cs.inj # "none" => ~res.ok)           \* injected faults never yield a slice
+         /\ (r = 1 => Summary(cs, arr, res, res2) = SummaryRep(cs, 0))
 \* witnesses (must be violated)
 W_CaseOk == ~(IsCase /\ Shredded(cs) /\ SummaryRep(cs, 0).ok)
 W_CaseRefused == ~(IsCase /\ ~ECShred(cs.pv, cs.slice).ok)
